@@ -49,6 +49,7 @@ type plL struct {
 	P3     string `json:"p3"`
 	Inst   string `json:"inst"`
 	App    string `json:"app"`
+	Gapp   string `json:"gapp"`
 	Bad    string `json:"bad"`
 	Tmp    string `json:"tmp"`
 }
@@ -67,6 +68,7 @@ type plObs struct {
 	Sharded    []plOut  `json:"sharded"`
 	Hashes     []string `json:"hashes"`
 	HashStable bool     `json:"hashStable"`
+	Collapsed  bool     `json:"collapsed"` // equal entries of a group collapse into one target
 	Err        string   `json:"err,omitempty"`
 }
 
@@ -102,25 +104,55 @@ func plYAML(c plCfg, l plL) string {
 	return b.String()
 }
 
+// plGroup renders the discovered group.  Variants (all must give the same targets and hashes):
+//   0 labels on the target, 1 labels on the group, 2 the target listed twice, 3 = 0 in a fresh discovery,
+//   4 labels on the target AND (same values) on the group, 5 a second entry that differs only in a
+//   __meta label (dropped after relabeling), 6 a second entry with the default port written out
 func plGroup(l plL, variant int) *targetgroup.Group {
 	tl := model.LabelSet{model.AddressLabel: model.LabelValue(l.Addr)}
 	gl := model.LabelSet{}
+	if l.Gapp != "" {
+		gl["app"] = model.LabelValue(l.Gapp)
+	}
 	put := func(k, v string) {
 		if v == "" {
 			return
 		}
-		if variant == 1 {
+		if variant == 1 && !(k == "app" && l.Gapp != "") {
 			gl[model.LabelName(k)] = model.LabelValue(v) // the same label, on the group instead of the target
 		} else {
 			tl[model.LabelName(k)] = model.LabelValue(v)
+		}
+		if variant == 4 && !(k == "app" && l.Gapp != "") {
+			gl[model.LabelName(k)] = model.LabelValue(v)
 		}
 	}
 	put("app", l.App)
 	put("1bad", l.Bad)
 	g := &targetgroup.Group{Source: fmt.Sprintf("src-%d", variant), Targets: []model.LabelSet{tl}, Labels: gl}
-	if variant == 2 {
-		// the same target listed twice, and a group label that the target overrides
+	switch variant {
+	case 2:
 		g.Targets = append(g.Targets, tl.Clone())
+	case 5:
+		t2 := tl.Clone()
+		t2["__meta_dup"] = "1"
+		g.Targets = append(g.Targets, t2)
+	case 6:
+		t2 := tl.Clone()
+		if !strings.Contains(strings.TrimPrefix(l.Addr, "["), ":") || strings.HasSuffix(l.Addr, "]") {
+			// no port given: the port that will be completed, written out
+			scheme := l.Scheme
+			if scheme == "" {
+				scheme = "-"
+			}
+			t2[model.AddressLabel] = model.LabelValue(l.Addr + map[string]string{"https": ":443", "http": ":80", "-": ""}[scheme])
+			if scheme == "-" {
+				t2 = nil
+			}
+		}
+		if t2 != nil {
+			g.Targets = append(g.Targets, t2)
+		}
 	}
 	return g
 }
@@ -184,12 +216,18 @@ func cmdPipeline(args []string) error {
 }
 
 func discoverOnce(yaml string, groups []*targetgroup.Group) (map[uint64]*discovery.SDTargets, error) {
+	m, _, err := discoverCount(yaml, groups)
+	return m, err
+}
+
+// discoverCount also returns the number of entries in the job's active list
+func discoverCount(yaml string, groups []*targetgroup.Group) (map[uint64]*discovery.SDTargets, int, error) {
 	lg := quietLog()
 	td := discovery.New(lg)
 	cfgm := prom.NewConfigManager()
 	cfgm.AddReloadCallbacks(td.ApplyConfig)
 	if err := cfgm.ReloadFromRaw([]byte(yaml)); err != nil {
-		return nil, err
+		return nil, 0, err
 	}
 	ch := make(chan map[string][]*targetgroup.Group)
 	ctx, cancel := context.WithCancel(context.Background())
@@ -199,13 +237,17 @@ func discoverOnce(yaml string, groups []*targetgroup.Group) (map[uint64]*discove
 	select {
 	case <-td.ActiveTargetsChan():
 	case <-time.After(5 * time.Second):
-		return nil, fmt.Errorf("discovery did not translate the update")
+		return nil, 0, fmt.Errorf("discovery did not translate the update")
 	}
-	return td.ActiveTargetsByHash(), nil
+	n := 0
+	for _, l := range td.ActiveTargets() {
+		n += len(l)
+	}
+	return td.ActiveTargetsByHash(), n, nil
 }
 
 func runPipelineCase(dir string, c plCfg, l plL) plObs {
-	o := plObs{Plain: []plOut{}, Sharded: []plOut{}, Hashes: []string{}, HashStable: true}
+	o := plObs{Plain: []plOut{}, Sharded: []plOut{}, Hashes: []string{}, HashStable: true, Collapsed: true}
 	yaml := plYAML(c, l)
 	pc, err := config.Load(yaml, false, log.NewNopLogger())
 	if err != nil {
@@ -311,12 +353,12 @@ func runPipelineCase(dir string, c plCfg, l plL) plObs {
 		}
 	}
 	// ---- hash stability (C15): rearranged labels, duplicates, another round, a fresh discovery ----
-	for variant := 1; variant <= 3; variant++ {
+	for variant := 1; variant <= 6; variant++ {
 		v := variant
 		if v == 3 {
 			v = 0
 		}
-		by2, err := discoverOnce(yaml, []*targetgroup.Group{plGroup(l, v)})
+		by2, n2, err := discoverCount(yaml, []*targetgroup.Group{plGroup(l, v)})
 		if err != nil {
 			o.Err += " discovery variant: " + err.Error()
 			continue
@@ -328,6 +370,9 @@ func runPipelineCase(dir string, c plCfg, l plL) plObs {
 		sort.Strings(hs)
 		if strings.Join(hs, ",") != strings.Join(o.Hashes, ",") {
 			o.HashStable = false
+		}
+		if n2 != len(by2) {
+			o.Collapsed = false // the job's active list holds the same target more than once
 		}
 	}
 	return o
